@@ -307,6 +307,60 @@ def extract_rg_rules_loop(dst):
     return 1
 
 
+def extract_cxx_forwarders(dst):
+    """Rule R9: the member functions of class yaep (yaep.cpp, between `#include "yaep.c"` and the YAEP_TEST block) rewritten to C by fixed,
+    must-fire rules: `yaep::yaep (void)` -> `void yaepxx_ctor (struct yaepxx *this_)`, `yaep::~yaep (void)` -> `void yaepxx_dtor (struct yaepxx *this_)`,
+    `yaep::m (void)` -> `yaepxx_m (struct yaepxx *this_)`, `yaep::m (` -> `yaepxx_m (struct yaepxx *this_, ` (a member declared `static` in the
+    class: no `this_` parameter), `this->` -> `this_->`.  struct yaepxx gets the data members of the class (everything before `public:`).
+    What the rewriting drops: C++ member-call syntax and the allocation of the object itself by new/delete; bodies are copied verbatim."""
+    text = open(os.path.join(dst, "yaep.cpp")).read()
+    hdr = open(os.path.join(dst, "yaep.h")).read()
+    m = re.search(r"\nclass yaep\s*\{(.*?)\n\};", hdr, re.S)
+    if not m:
+        raise StageError("R9: class yaep not found in yaep.h")
+    cls = m.group(1)
+    if cls.count("public:") != 1:
+        raise StageError("R9: class yaep: expected exactly one public: label")
+    data = _shadow(cls.split("public:")[0])
+    members = [d.strip() for d in data.split(";") if d.strip()]
+    if members != ["struct grammar *grammar"]:
+        raise StageError("R9: data members of class yaep changed: %r" % members)
+    statics = set(re.findall(r"\bstatic\s+[\w\s\*]*?\b(\w+)\s*\(", _shadow(cls.split("public:")[1])))
+    i0 = text.find('#include "yaep.c"')
+    i1 = text.find("#ifdef YAEP_TEST", i0)
+    if i0 < 0 or i1 < 0:
+        raise StageError("R9: anchors of the member-function region of yaep.cpp did not fire")
+    region = text[i0 + len('#include "yaep.c"'):i1]
+    line = text.count("\n", 0, i0) + 1
+    names = []
+
+    def sub(mm):
+        name, void = mm.group(1), mm.group(2)
+        if name == "yaep":
+            names.append("ctor")
+            return "void yaepxx_ctor (struct yaepxx *this_" + (")" if void else ", ")
+        if name == "~yaep":
+            names.append("dtor")
+            return "void yaepxx_dtor (struct yaepxx *this_" + (")" if void else ", ")
+        names.append(name)
+        if name in statics:
+            return "yaepxx_%s (" % name + ("void)" if void else "")
+        return "yaepxx_%s (struct yaepxx *this_" % name + (")" if void else ", ")
+    out = re.sub(r"\byaep::(~?\w+)\s*\(\s*(void\s*\))?", sub, region)
+    out = re.sub(r"\bthis->", "this_->", out)
+    sh = _shadow(out)
+    if re.search(r"\byaep::|\bthis\b|\bnew\b|\bdelete\b|\bclass\b", sh):
+        raise StageError("R9: C++ constructs left after rewriting the members of class yaep")
+    want = ["ctor", "dtor", "error_code", "error_message", "read_grammar", "parse_grammar", "set_lookahead_level", "set_debug_level", "set_one_parse_flag",
+            "set_cost_flag", "set_error_recovery_flag", "set_recovery_match", "parse", "free_tree"]
+    if sorted(names) != sorted(want):
+        raise StageError("R9: member functions of class yaep changed: %r" % names)
+    open(os.path.join(dst, "r9_cxx_fwd.inc"), "w").write(
+        "/* generated by stage.py rule R9 on every run: member functions of class yaep (yaep.cpp) rewritten to C, bodies verbatim */\n"
+        "struct yaepxx { struct grammar *grammar; };\n#line %d \"yaep.cpp\"\n%s\n" % (line, out))
+    return {"members": names, "static_members": sorted(statics)}
+
+
 def stage(dst, loops_files=None):
     """Populate dst with the staged sources. Returns info dict."""
     os.makedirs(dst, exist_ok=True)
@@ -367,6 +421,7 @@ def stage(dst, loops_files=None):
     info["r6"] = extract_rg_tail(dst)
     info["r7"] = extract_rg_rule(dst)
     info["r8"] = extract_rg_rules_loop(dst)
+    info["r9"] = extract_cxx_forwarders(dst)
     # bison exactly as src/CMakeLists.txt does (bison_target -> bison -o sgramm.c sgramm.y)
     r = subprocess.run(["bison", "-o", "sgramm.c", "sgramm.y"], cwd=dst, capture_output=True, text=True)
     if r.returncode != 0 or not os.path.exists(os.path.join(dst, "sgramm.c")):
